@@ -3,7 +3,6 @@ package rig
 import (
 	"net/netip"
 
-
 	"github.com/pion/stun/v3"
 
 	"verif/sim/simnet"
